@@ -703,6 +703,11 @@ def run(ck):
     for i in range(48 if not thorough else 960):
         if ck.mine(i):
             corner_networks(ck, i)
+    # connections that share one protect entry object (a YAML alias) without subnets: each peer's request for ITS endpoints is accepted and installed with them
+    from vf.checks import c15 as c15_
+    for i in range(24 if not thorough else 480):
+        if ck.mine(i + 2):
+            c15_.shared_entries(ck, i)
     for i in range(40 if not thorough else 4000):
         if ck.mine(i):
             rekey_case(ck, ck.rng('rekey', i), i)
@@ -716,6 +721,7 @@ def run(ck):
 
 def verdict(ck):
     c = ck.counters
+    ck.floor('daemons whose connections share one protect entry object, every connection served with its own endpoints', c['shared_entries.all_connections_served'], 18)
     ck.floor('tunnels between corner networks (other family than the gateways, all-zero networks, /31, /127 ...) established and compared', c['corner_networks.established'], 36)
     ck.floor('exhaustive selector pairs', c['subset.pairs'], 3 * 32400)
     ck.floor('network round trips', c['network.roundtrips'], 2000)
